@@ -435,6 +435,12 @@ def capture_case(pattern, depth, position):
         inner_node = lam_body([], None, inner)
     elif pattern == "rest":
         inner_node = lam([], "more", begin(emit(V(v)), emit(prim("length", V("more"))), emit(V("more"))))
+    elif pattern == "named-let-tag":
+        # (let ((tag 10)) (let tag ((i tag)) ...)): the inits are evaluated OUTSIDE the scope of the tag (R7RS 4.2.4)
+        tag, i = fresh("nltag"), fresh("nli")
+        inner_node = thunk(let([(tag, prim("+", V(v), I(10)))],
+                               emit(named_let(tag, [(i, V(tag)), ("nacc", I(0))],
+                                              if_(prim("<", V(i), I(1)), V("nacc"), app(V(tag), [prim("-", V(i), I(5)), prim("+", V("nacc"), V(i))]))))))
     elif pattern == "rest-set-only":
         # the rest parameter is assigned but never read; the caller keeps live temporaries around the call
         f, y = fresh("frs"), fresh("yrs")
@@ -461,7 +467,7 @@ def capture_case(pattern, depth, position):
                    begin(emit(app(V(clo), [])), emit(app(V(clo), []))))
 
 
-PATTERNS = ["captured", "mutated", "captured+mutated", "shadowed", "forward", "rest", "rest-set-only", "unused"]
+PATTERNS = ["captured", "mutated", "captured+mutated", "shadowed", "forward", "rest", "rest-set-only", "named-let-tag", "unused"]
 POSITIONS = ["param", "local", "closure"]
 
 
@@ -590,6 +596,12 @@ class Gen09(Gen03):
             elif k == 2:      # constant test, dead branch with an effect that must not happen
                 st.append(if_(prim("<", I(1), I(2)), emit(I(11)), emit(I(12))))
                 st.append(if_(B(False), emit(I(13)), VOID))
+            elif k == 3 and r.random() < 0.5:      # a type predicate whose value is unused but whose ARGUMENT has an effect
+                n = fresh("tp")
+                st.append(let([(n, I(0))], begin(prim(r.choice(["pair?", "null?", "procedure?"]), begin(set_(n, prim("+", V(n), I(1))), V(n))),
+                                                 emit(V(n)),
+                                                 prim("not", begin(emit(I(31)), I(5))),
+                                                 emit(I(32)))))
             elif k == 3:      # effectful statement in non-tail sequence position must be kept
                 st.append(begin(emit(I(21)), self.const_expr(2), emit(I(22)), prim("+", I(1), I(2)), emit(I(23))))
             elif k == 4:      # non-numeric constants folded?  (car '(1 2)) style
